@@ -173,34 +173,93 @@ def resolvePort (names : List String) (name : String) : Option (List Int) :=
   let c := names.count name
   if c = 0 then none else some ((List.range c).map fun (i : Nat) => Int.ofNat (names.idxOf name + i))
 
+/-- which behaviours of `resolve` are the repaired ones (`all`) and which are the code as found:
+`name = false`: `{'port name': int}` on a one-mode port is stored and then refused ("imbalanced ports");
+`skip = false`: an item with an `int` key and a list / port-name value is silently ignored. -/
+structure RFlags where
+  name : Bool
+  skip : Bool
+deriving DecidableEq, Repr
+
+def RFlags.all : RFlags := ⟨true, true⟩
+
+/-- the right-hand modes an item names, paired with the left modes `lidx` (the `else` branch of the loop
+of `resolve`: `r_idx` from an int / a list / an input port name, then the size test, then the stores) -/
+def pairItem (fx : RFlags) (r : Side) (res : Dict) (lidx : List Int) (v : MVal) : Except Err Dict := do
+  let (res, ridx) ← (match v with
+    | .int v =>
+      if lidx.length = 1 then
+        .ok (dictSet res (lidx.headD 0) v, if fx.name then [v] else [])
+      else if r.comp then .error .assertion         -- `_resolve_port_right` on a component
+      else .error .invalid                          -- `names.count(int) == 0`
+    | .list vs => .ok (res, vs)
+    | .name s =>
+      if r.comp then .error .assertion
+      else match resolvePort r.inNames s with
+        | none => .error .invalid
+        | some ridx => .ok (res, ridx) : Except Err (Dict × List Int))
+  if lidx.length ≠ ridx.length then .error .invalid
+  else .ok (dictSetAll res (lidx.zip ridx))
+
 /-- the dictionary branch of `resolve`, one `(k, v)` item at a time -/
-def resolveItem (fixed : Bool) (l r : Side) (res : Dict) : MKey × MVal → Except Err Dict
+def resolveItem (fx : RFlags) (l r : Side) (res : Dict) : MKey × MVal → Except Err Dict
   | (.int k, .int v) => .ok (dictSet res k v)
-  | (.int _, _) => .ok res                              -- silently skipped by the code
+  | (.int k, v) =>
+    if fx.skip then pairItem fx r res [k] v          -- repaired: an int key is a one-mode port
+    else .ok res                                     -- as found: silently skipped by the code
   | (.name k, v) =>
     match resolvePort l.outNames k with
     | none => .error .invalid
-    | some lidx => do
-      let (res, ridx) ← (match v with
-        | .int v =>
-          if lidx.length = 1 then
-            .ok (dictSet res (lidx.headD 0) v, if fixed then [v] else [])
-          else if r.comp then .error .assertion         -- `_resolve_port_right` on a component
-          else .error .invalid                          -- `names.count(int) == 0`
-        | .list vs => .ok (res, vs)
-        | .name s =>
-          if r.comp then .error .assertion
-          else match resolvePort r.inNames s with
-            | none => .error .invalid
-            | some ridx => .ok (res, ridx) : Except Err (Dict × List Int))
-      if lidx.length ≠ ridx.length then .error .invalid
-      else .ok (dictSetAll res (lidx.zip ridx))
+    | some lidx => pairItem fx r res lidx v
 
-def resolveItems (fixed : Bool) (l r : Side) : Dict → List (MKey × MVal) → Except Err Dict
+def resolveItems (fx : RFlags) (l r : Side) : Dict → List (MKey × MVal) → Except Err Dict
   | res, [] => .ok res
   | res, it :: rest => do
-    let res ← resolveItem fixed l r res it
-    resolveItems fixed l r res rest
+    let res ← resolveItem fx l r res it
+    resolveItems fx l r res rest
+
+/-! ### the dictionary form in closed form: the pairs every item stands for -/
+
+/-- right-hand modes named by a value, for `n` left modes (`r_idx`, with the errors of the code) -/
+def rightIdx (fx : RFlags) (r : Side) (n : Nat) : MVal → Except Err (List Int)
+  | .int v =>
+    if n = 1 then (if fx.name then .ok [v] else .error .invalid)
+    else if r.comp then .error .assertion
+    else .error .invalid
+  | .list vs => .ok vs
+  | .name s =>
+    if r.comp then .error .assertion
+    else match resolvePort r.inNames s with
+      | none => .error .invalid
+      | some ridx => .ok ridx
+
+/-- left modes named by a key (`none` = the item is ignored by the code as found) -/
+def leftIdx (fx : RFlags) (l : Side) : MKey → MVal → Except Err (Option (List Int))
+  | .int k, .int _ => .ok (some [k])
+  | .int k, _ => .ok (if fx.skip then some [k] else none)
+  | .name k, _ =>
+    match resolvePort l.outNames k with
+    | none => .error .invalid
+    | some lidx => .ok (some lidx)
+
+/-- the `(left mode, right mode)` pairs one item of a dictionary mapping stands for -/
+def itemPairs (fx : RFlags) (l r : Side) (it : MKey × MVal) : Except Err (List (Int × Int)) :=
+  match it with
+  | (.int k, .int v) => .ok [(k, v)]
+  | (k, v) => do
+    match ← leftIdx fx l k v with
+    | none => .ok []
+    | some lidx =>
+      let ridx ← rightIdx fx r lidx.length v
+      if lidx.length ≠ ridx.length then .error .invalid else .ok (lidx.zip ridx)
+
+/-- the pairs of all the items, in order (first error wins, as in the loop) -/
+def allPairs (fx : RFlags) (l r : Side) : List (MKey × MVal) → Except Err (List (Int × Int))
+  | [] => .ok []
+  | it :: rest => do
+    let ps ← itemPairs fx l r it
+    let qs ← allPairs fx l r rest
+    return ps ++ qs
 
 /-- `_mapping_type_checks` (the part reachable with int / str / list values) -/
 def typeChecks (r : Side) (items : List (MKey × MVal)) : Bool :=
@@ -208,7 +267,7 @@ def typeChecks (r : Side) (items : List (MKey × MVal)) : Bool :=
     | .name _ => !r.comp
     | _ => true
 
-def resolve (fixed : Bool) (l r : Side) : RawMap → Except Err Dict
+def resolve (fixed : RFlags) (l r : Side) : RawMap → Except Err Dict
   | .ofInt b => do
     let rl := orderedRModes r
     let d := dictOf ((List.range r.m).map fun (i : Nat) => (b + Int.ofNat i, Int.ofNat (rl.getD i 0)))
@@ -377,7 +436,7 @@ def removePorts (keep : Bool) (outp : List Port) (keys : List Nat) : List Port :
   if keep then outp
   else outp.filter fun p => !keys.any fun k => p.start ≤ k && k < p.start + p.size
 
-def compose (fixName fixPS fixPorts : Bool) (l r : Side) (raw : RawMap) (keepPort : Bool) :
+def compose (fixName : RFlags) (fixPS fixPorts : Bool) (l r : Side) (raw : RawMap) (keepPort : Bool) :
     Except Err Result := do
   let d ← resolve fixName l r raw
   let keys := d.keys.map Int.toNat
